@@ -355,6 +355,10 @@ def St.createCatch (s : St) (tryBegin : Nat) (labelCount : Nat) : R (Option SetR
     let (ls, s) ← ({} : LabelSet).resize labelCount s
     .ok (some (.ca s.catches.size), { s with caCont := c, catches := s.catches.push ⟨tryBegin, s.pos, ls⟩ })
 
+/-- `if (newStateScript) stateScript = newStateScript;` (the counting manager creates none) -/
+def St.enter (s : St) (r : Option SetRef) : St :=
+  match r with | some r => { s with cur := r } | none => s
+
 /-! ## the previous-opcode window -/
 
 def St.prevOp (s : St) : R PrevOp :=
@@ -380,15 +384,18 @@ def St.absorb (s : St) : R St := do
   let pp := if s.prevPos = 0 then 100 else s.prevPos
   .ok { s with prevPos := pp - 1 }
 
+/-- the stack bookkeeping of `EmitOpcodeWithStack` (`m_iVarStackOffset` and the two maxima) -/
+def St.trackStack (s : St) (ext : Bool) (off : Int) : St :=
+  let s := if ext then { s with maxExt := if s.varStack > s.maxExt then s.varStack else s.maxExt } else s
+  let s := { s with varStack := s.varStack + off }
+  if !ext then { s with maxInt := if s.varStack > s.maxInt then s.varStack else s.maxInt } else s
+
 /-- `EmitOpcodeWithStack` -/
 def St.emitOpWith (s : St) (op : Nat) (off : Int) : R St := do
   let op := op % 256
   if !s.counting && s.dev && s.pos ≥ s.progLen then throw (.ub .sourceMapIndex)
   let ext ← match opExt? op with | some e => .ok e | none => .error (.ub .opcodeTable)
-  let s := if ext then { s with maxExt := if s.varStack > s.maxExt then s.varStack else s.maxExt } else s
-  let s := { s with varStack := s.varStack + off }
-  let s := if !ext then { s with maxInt := if s.varStack > s.maxInt then s.varStack else s.maxInt } else s
-  (s.accumulate op off).write [op]
+  ((s.trackStack ext off).accumulate op off).write [op]
 
 /-- `EmitOpcode` -/
 def St.emitOp (s : St) (op : Nat) : R St := do
@@ -828,7 +835,7 @@ def emit : Node → St → R St
       .ok (t.info.numLabels + t.info.numCaseLabels)
     let old := s.cur
     let (r, s) ← s.createCatch tryBegin numSetLabels
-    let s := match r with | some r => { s with cur := r } | none => s
+    let s := s.enter r
     let s ← emit c s
     { s with cur := old }.addJumpLocation oldPos
   | .switch e b, s => do
@@ -841,7 +848,7 @@ def emit : Node → St → R St
       .ok (t.info.numLabels + t.info.numCaseLabels)
     let old := s.cur
     let (r, s) ← s.createSwitch numSetLabels
-    let s := match r with | some r => { s with cur := r } | none => s
+    let s := s.enter r
     -- the operand is the `StateScript*`: its ordinal here (the harness prints ordinals for addresses)
     let operand := match s.cur with | .sw k => k | _ => 0
     let s ← s.emitOpBytes OP_SWITCH (le 8 (if s.counting then 0 else operand))
